@@ -29,8 +29,24 @@ fn lib_msgs(m: &[u64]) -> Vec<DltMessage> {
         .collect()
 }
 
-fn lib_stream(log: &slog::Logger, is_stream: bool, w: u64) -> StreamContext {
-    let params = json!({"window":[0, w], "binary": true, "filters":[{"type":0,"apid":"MTCH"}]}).to_string();
+/// filter sets that all keep exactly the messages with apid MTCH (all messages have ecu ECU1): every combination of
+/// filter kinds, so that the index does not depend on which kind of filter carries the criterion
+const LIB_SHAPES: usize = 7;
+fn lib_filters(shape: usize) -> Value {
+    match shape % LIB_SHAPES {
+        0 => json!([{"type":0,"apid":"MTCH"}]),                                                   // pos
+        1 => json!([{"type":3,"apid":"MTCH"}]),                                                   // event only
+        2 => json!([{"type":1,"apid":"NOMA"}]),                                                   // neg only
+        3 => json!([{"type":0,"ecu":"ECU1"},{"type":3,"apid":"MTCH"}]),                           // pos + event
+        4 => json!([{"type":1,"apid":"NONE"},{"type":3,"apid":"MTCH"}]),                          // neg + event
+        5 => json!([{"type":0,"ecu":"ECU1"},{"type":1,"apid":"NOMA"},{"type":3,"ecu":"ECU1"}]),   // pos + neg + event
+        _ => json!([{"type":0,"apid":"ZZZZ","enabled":false},{"type":1,"apid":"MTCH","enabled":false},{"type":2,"apid":"NOMA"},
+                    {"type":3,"apid":"MTCH"},{"type":3,"apid":"ZZZZ","enabled":false}]),          // disabled + marker + event
+    }
+}
+
+fn lib_stream(log: &slog::Logger, is_stream: bool, w: u64, shape: usize) -> StreamContext {
+    let params = json!({"window":[0, w], "binary": true, "filters": lib_filters(shape)}).to_string();
     StreamContext::from(log, if is_stream { "stream" } else { "query" }, &params).expect("stream context")
 }
 
@@ -57,12 +73,13 @@ struct LibCase {
     s: bool,
     w: u64,
     ops: Vec<(String, u64)>,
+    shape: usize, // which of the equivalent filter sets is used (lib_filters)
 }
 
 fn lib_write_case(t: &mut Trace, case: u64, src: &str, c: &LibCase, log: &slog::Logger) {
-    t.ev(json!({"ev":"reset","case":case,"hdr":{"n":c.m.len(),"m":c.m,"s":c.s,"w":c.w,"src":src}}));
+    t.ev(json!({"ev":"reset","case":case,"hdr":{"n":c.m.len(),"m":c.m,"s":c.s,"w":c.w,"src":src,"filters":lib_filters(c.shape)}}));
     let msgs = lib_msgs(&c.m);
-    let mut stream = lib_stream(log, c.s, c.w);
+    let mut stream = lib_stream(log, c.s, c.w, c.shape);
     let mut all_len = 0usize;
     for (op, k) in &c.ops {
         match lib_step(&mut stream, &msgs, &mut all_len, op, *k) {
@@ -102,10 +119,11 @@ fn lib_main(a: &Args) {
                 s: v["s"].as_bool().unwrap(),
                 w: v["w"].as_u64().unwrap(),
                 ops: v["h"].as_array().unwrap().iter().map(|h| (h["op"].as_str().unwrap().to_string(), h["k"].as_u64().unwrap())).collect(),
+                shape: replayed as usize, // the equivalent filter sets rotate over the behaviours
             };
             // fast path: observation == TLC's prediction after every step (data equality only)
             let msgs = lib_msgs(&c.m);
-            let mut stream = lib_stream(&log, c.s, c.w);
+            let mut stream = lib_stream(&log, c.s, c.w, c.shape);
             let mut all_len = 0usize;
             let mut equal = true;
             for (i, (op, k)) in c.ops.iter().enumerate() {
@@ -163,7 +181,7 @@ fn lib_main(a: &Args) {
         ops.push(("arrive".to_string(), left));
         ops.push(("process".to_string(), 3_000_000));
         ops.push(("process".to_string(), 3_000_000));
-        let c = LibCase { m, s, w, ops };
+        let c = LibCase { m, s, w, ops, shape: rng.below(LIB_SHAPES as u64) as usize };
         steps += c.ops.len() as u64;
         lib_write_case(&mut t, case, "random", &c, &log);
         case += 1;
@@ -183,7 +201,8 @@ struct LogFile {
 
 #[derive(Clone, Debug)]
 struct F {
-    neg: bool,
+    k: &'static str, // pos | neg | event | marker
+    on: bool,        // enabled
     e: String,
     a: String,
     c: String,
@@ -193,7 +212,10 @@ fn f_json(fs: &[F]) -> Value {
         fs.iter()
             .map(|f| {
                 let mut o = serde_json::Map::new();
-                o.insert("type".into(), json!(if f.neg { 1 } else { 0 }));
+                o.insert("type".into(), json!(match f.k { "pos" => 0, "neg" => 1, "marker" => 2, "event" => 3, k => panic!("filter kind {}", k) }));
+                if !f.on {
+                    o.insert("enabled".into(), json!(false));
+                }
                 if !f.e.is_empty() {
                     o.insert("ecu".into(), json!(f.e));
                 }
@@ -209,7 +231,7 @@ fn f_json(fs: &[F]) -> Value {
     )
 }
 fn f_abs(fs: &[F]) -> Value {
-    Value::Array(fs.iter().map(|f| json!({"neg":f.neg,"e":f.e,"a":f.a,"c":f.c})).collect())
+    Value::Array(fs.iter().map(|f| json!({"k":f.k,"on":f.on,"e":f.e,"a":f.a,"c":f.c})).collect())
 }
 
 #[derive(Clone)]
@@ -498,13 +520,13 @@ fn run_srv_case(port: u16, case: usize, cs: &SrvCase, logs: &[LogFile], logline:
     evs
 }
 
-#[allow(dead_code)]
 fn parse_filters(v: &Value) -> Vec<F> {
     v.as_array()
         .map(|a| {
             a.iter()
                 .map(|f| F {
-                    neg: f["neg"].as_bool().unwrap_or(false),
+                    k: match f["k"].as_str().unwrap() { "pos" => "pos", "neg" => "neg", "event" => "event", "marker" => "marker", k => panic!("filter kind {}", k) },
+                    on: f["on"].as_bool().unwrap(),
                     e: f["e"].as_str().unwrap_or("").to_string(),
                     a: f["a"].as_str().unwrap_or("").to_string(),
                     c: f["c"].as_str().unwrap_or("").to_string(),
@@ -522,8 +544,12 @@ const ECUS: [&str; 2] = ["ECUA", "ECUB"];
 const APIDS: [&str; 3] = ["APIA", "APIB", "APIC"];
 const CTIDS: [&str; 3] = ["CTIA", "CTIB", "CTIC"];
 
-fn random_filter(rng: &mut Rng, neg: bool) -> F {
-    let mut f = F { neg, e: String::new(), a: String::new(), c: String::new() };
+fn lit(k: &'static str, on: bool, e: &str, a: &str, c: &str) -> F {
+    F { k, on, e: e.into(), a: a.into(), c: c.into() }
+}
+
+fn random_filter(rng: &mut Rng, k: &'static str, on: bool) -> F {
+    let mut f = lit(k, on, "", "", "");
     match rng.below(5) {
         0 => f.e = rng.pick(&ECUS).to_string(),
         1 => f.a = rng.pick(&APIDS).to_string(),
@@ -540,21 +566,39 @@ fn random_filter(rng: &mut Rng, neg: bool) -> F {
     f
 }
 
+/// filter sets over all kind combinations: pos / neg / event filters present or not (0-2 each), plus disabled filters of
+/// any kind and marker filters (which must not change the set); `allow_empty`: also sets without any active filter
 fn random_filters(rng: &mut Rng, allow_empty: bool) -> Vec<F> {
     let mut v = Vec::new();
-    match rng.below(6) {
-        0 if allow_empty => {}
-        0 | 1 => v.push(random_filter(rng, false)),
-        2 => {
-            v.push(random_filter(rng, false));
-            v.push(random_filter(rng, false));
+    if rng.chance(1, 12) {
+        v.push(lit(*rng.pick(&["pos", "event"]), true, "", "NONE", "")); // matches nothing
+        return v;
+    }
+    loop {
+        let combo = rng.below(8); // bit 0: pos, bit 1: neg, bit 2: event
+        if combo == 0 && !allow_empty {
+            continue;
         }
-        3 => v.push(random_filter(rng, true)),
-        4 => {
-            v.push(random_filter(rng, false));
-            v.push(random_filter(rng, true));
+        for (bit, k) in [(1u64, "pos"), (2, "neg"), (4, "event")] {
+            if combo & bit != 0 {
+                for _ in 0..rng.range(1, 2) {
+                    v.push(random_filter(rng, k, true));
+                }
+            }
         }
-        _ => v.push(F { neg: false, e: String::new(), a: "NONE".into(), c: String::new() }), // matches nothing
+        break;
+    }
+    if rng.chance(1, 3) {
+        let k = *rng.pick(&["pos", "neg", "event"]);
+        v.push(random_filter(rng, k, false)); // disabled
+    }
+    if rng.chance(1, 5) {
+        v.push(random_filter(rng, "marker", true));
+    }
+    // the order of the filters in the request does not matter
+    for i in (1..v.len()).rev() {
+        let j = rng.below(i as u64 + 1) as usize;
+        v.swap(i, j);
     }
     v
 }
@@ -580,20 +624,21 @@ fn srv_main(a: &Args) {
     std::fs::create_dir_all(&dir).unwrap();
     let mut logs: Vec<LogFile> = Vec::new();
     let mut cases: Vec<SrvCase> = Vec::new();
-    // (A) TLC scenarios on tiny logs: message i matches the stream filter iff m[i] = 1 (apid MTCH), the search filter
-    //     iff sm[i] = 1 (ctid SRCH); times 10 ms apart
+    // (A) TLC scenarios on tiny logs: the messages (ecu/apid/ctid), the stream's filter set (any combination of positive,
+    //     negative, event, disabled and marker filters) and the search filter come from the scenario; times 10 ms apart
     if let Some(f) = a.get("--scenarios") {
         let mut by_pattern: std::collections::HashMap<String, usize> = Default::default();
         for v in read_ndjson(f) {
-            let m: Vec<u64> = v["m"].as_array().unwrap().iter().map(|x| x.as_u64().unwrap()).collect();
-            let sm: Vec<u64> = v["sm"].as_array().map(|a| a.iter().map(|x| x.as_u64().unwrap()).collect()).unwrap_or_else(|| vec![0; m.len()]);
-            let key = format!("{:?}{:?}", m, sm);
+            let recs = v["msgs"].as_array().unwrap();
+            let key = v["msgs"].to_string();
             let li = *by_pattern.entry(key).or_insert_with(|| {
-                let msgs: Vec<GenMsg> = (0..m.len())
-                    .map(|i| GenMsg {
-                        ecu: "ECUA".into(),
-                        apid: if m[i] == 1 { "MTCH".into() } else { "NOMA".into() },
-                        ctid: if sm[i] == 1 { "SRCH".into() } else { "CTIX".into() },
+                let msgs: Vec<GenMsg> = recs
+                    .iter()
+                    .enumerate()
+                    .map(|(i, r)| GenMsg {
+                        ecu: r["e"].as_str().unwrap().into(),
+                        apid: r["a"].as_str().unwrap().into(),
+                        ctid: r["c"].as_str().unwrap().into(),
                         t_ms: 1000 + 10 * i as u64,
                         mcnt: i as u8,
                         text: format!("tiny log message number {}", i),
@@ -604,8 +649,8 @@ fn srv_main(a: &Args) {
                 logs.push(LogFile { path, msgs, big: 0 });
                 logs.len() - 1
             });
-            let filt = if v["unfiltered"].as_bool().unwrap_or(false) { vec![] } else { vec![F { neg: false, e: String::new(), a: "MTCH".into(), c: String::new() }] };
-            let sf = vec![F { neg: false, e: String::new(), a: String::new(), c: "SRCH".into() }];
+            let filt = parse_filters(&v["filt"]);
+            let sf = parse_filters(&v["sfilt"]);
             let kind = v["kind"].as_str().unwrap().to_string();
             cases.push(SrvCase {
                 src: "tlc".into(),
@@ -699,8 +744,8 @@ fn srv_main(a: &Args) {
         write_log(&path, &msgs);
         logs.push(LogFile { path, msgs: vec![], big: n_big });
         let li = logs.len() - 1;
-        let all = vec![F { neg: false, e: "ECUA".into(), a: String::new(), c: String::new() }];
-        let none = vec![F { neg: false, e: String::new(), a: "NONE".into(), c: String::new() }];
+        let all = vec![lit("event", true, "ECUA", "", ""), lit("neg", false, "ECUA", "", "")];
+        let none = vec![lit("pos", true, "", "NONE", "")];
         let mk = |kind: &str, late: bool, filt: &Vec<F>, win: (u64, u64), changes: Vec<(u64, u64)>| SrvCase {
             src: "big".into(), log: li, kind: kind.into(), late, paused_query: false, filt: filt.clone(), win, early_change: None, changes,
             searches: vec![], lookups: vec![], pred: Value::Null,
